@@ -13,9 +13,14 @@ Oracle (spec):  computed here, from the LATT/SYMM lines of the generated file, i
    complete   every fragment image g(F) (g over operators x all translations that can reach) that is
               directly bonded to the asymmetric unit is present (an image atom that falls within 0.2 A of a
               present atom of the same PART >= 0 counts as present: duplicate suppression)
-History:        1-3 calls of grow() / grow(with_qpeaks=True) in any order on ONE Shelxfile object: every call must satisfy the
-                four clauses for the ORIGINAL asymmetric unit, return the same atoms as the first call, and leave
-                shx.atoms as read (also after the caller has changed the returned list).  The Lean model is a pure
+History:        1-3 calls of grow() / grow(with_qpeaks=True) in any order on ONE Shelxfile object, optionally with edits
+                through the API between the calls - edits that change the bond graph without touching names or
+                coordinates (atom.element = ..., a new PART object, a new CELL) and edits that do (frac_coords = ...,
+                delete(), add_atom()).  Before every call the CURRENT structure is read off the object (atoms.all_atoms,
+                cell) and the four clauses are checked against the oracle for that structure; without an edit in
+                between, two calls must return the same atoms; no call may change shx.atoms (also after the caller has
+                changed the returned list).  Whether an edit does what it says is not C14's business: only what the
+                object holds at the time of the call counts.  The Lean model is a pure
                 function of its inputs; that the implementation is one too is checked here, not proved.
 Model (Lean):   `collectNeeded` on the implementation's own SDM items, `packer` on the implementation's own list
                 of needed operations, both in doubles; compared on need list (as a set) and grown atom list.
@@ -190,6 +195,8 @@ def fx(x):
 def atoms_of(case):
     """asymmetric unit in file order (atoms, then Q-peaks) with exact coordinates"""
     out = []
+    if 'asu' in case:      # a state of an edit history: the atom list as it stands (atoms.all_atoms order)
+        return [dict(a, pos=tuple(fx(v) for v in a['xyz']), el=case['sfac'][a['sfac'] - 1]) for a in case['asu']]
     for a in case['atoms']:
         out.append(dict(a, pos=tuple(fx(v) for v in a['xyz']), el=case['sfac'][a['sfac'] - 1], q=False))
     for k, qp in enumerate(case['qpeaks']):
@@ -201,6 +208,86 @@ def atoms_of(case):
 def calls_of(case):
     """the history of grow() calls on one object: list of with_qpeaks flags (older replay files have one call)"""
     return list(case.get('calls') or [case['with_q']])
+
+
+def steps_of(case):
+    """the history on one object: {'grow': flag} and {'edit': kind, ...} steps"""
+    return list(case.get('steps') or [dict(grow=f) for f in calls_of(case)])
+
+
+def initial_state(case):
+    asu = [dict(name=a['name'], sfac=a['sfac'], xyz=list(a['xyz']), part=a['part'], sof=a['sof'], u=(list(a['u']) + [0.0] * 6)[:6], q=False)
+           for a in case['atoms']]
+    asu += [dict(name=f'Q{k + 1}', sfac=1, xyz=list(qp['xyz']), part=0, sof=11.0, u=[0.05, qp['height'], 0.0, 0.0, 0.0, 0.0], q=True,
+                 height=qp['height']) for k, qp in enumerate(case['qpeaks'])]
+    return dict(case, asu=asu)
+
+
+def edit_sim(state, e):
+    """what the edit means (used by the generator only, to keep every state of a history clear of the thresholds)"""
+    asu = [dict(a) for a in state['asu']]
+    cell = list(state['cell'])
+    k = next((i for i, a in enumerate(asu) if a['name'] == e.get('name')), None)
+    if e['edit'] == 'element':
+        asu[k]['sfac'] = state['sfac'].index(e['el']) + 1
+    elif e['edit'] == 'part':
+        asu[k]['part'] = e['part']
+    elif e['edit'] == 'move':
+        asu[k]['xyz'] = list(e['xyz'])
+    elif e['edit'] == 'delete':
+        del asu[k]
+    elif e['edit'] == 'add':
+        asu.append(dict(name=e['name'], sfac=state['sfac'].index(e['el']) + 1, xyz=list(e['xyz']), part=0, sof=11.0,
+                        u=[0.05, 0.0, 0.0, 0.0, 0.0, 0.0], q=False))
+    elif e['edit'] == 'cell':
+        cell = list(e['cell'])
+    return dict(state, asu=asu, cell=cell)
+
+
+def edit_impl(shx, e):
+    """the same edit through the library's API"""
+    from shelxfile.shelx.cards import CELL, PART
+    if e['edit'] == 'add':
+        shx.add_atom(name=e['name'], coordinates=list(e['xyz']), element=e['el'], uvals=[0.05, 0.0, 0.0, 0.0, 0.0, 0.0], part=0, sof=11.0)
+        return
+    if e['edit'] == 'cell':
+        shx.cell = CELL(shx, ['CELL', '0.71073'] + [str(v) for v in e['cell']])
+        return
+    at = shx.atoms.get_atom_by_name(e['name'])
+    if e['edit'] == 'element':
+        at.element = e['el']
+    elif e['edit'] == 'part':
+        at.part = PART(shx, ['PART', str(e['part'])])
+    elif e['edit'] == 'move':
+        at.frac_coords = tuple(e['xyz'])
+    elif e['edit'] == 'delete':
+        at.delete()
+
+
+def rand_edit(rng, state, used):
+    real = [a for a in state['asu'] if not a['q']]
+    kind = rng.choices(['element', 'part', 'cell', 'move', 'delete', 'add'], [3, 3, 2, 2, 1, 2])[0]
+    if kind == 'delete' and len(real) < 2:
+        kind = 'element'
+    a = rng.choice(real)
+    Oinv = inv3(ortho(state['cell']))
+    if kind == 'element':
+        cur = state['sfac'][a['sfac'] - 1]
+        return dict(edit='element', name=a['name'], el=rng.choice([e for e in ['C', 'N', 'O', 'S', 'Cl', 'H'] if e != cur]))
+    if kind == 'part':
+        return dict(edit='part', name=a['name'], part=rng.choice([p for p in [0, 1, 2, -1] if p != a['part']]))
+    if kind == 'cell':
+        f = rng.choice([0.85, 0.93, 1.1, 1.2])
+        return dict(edit='cell', cell=[round(v * f, 3) for v in state['cell'][:3]] + list(state['cell'][3:]))
+    if kind == 'delete':
+        return dict(edit='delete', name=a['name'])
+    d = rand_dir(rng)
+    L = rng.uniform(0.3, 1.0) if kind == 'move' else rng.uniform(1.3, 1.55)
+    xyz = [round(a['xyz'][i] + sum(Oinv[i][k] * L * d[k] for k in range(3)), 6) for i in range(3)]
+    if kind == 'move':
+        return dict(edit='move', name=a['name'], xyz=xyz)
+    el = rng.choice(['C', 'N', 'O', 'S'])
+    return dict(edit='add', name=gen.atom_name(rng, el, used), el=el, xyz=xyz)
 
 
 def render(case):
@@ -501,8 +588,22 @@ def make_case(rng, profile=None):
     # history of calls on one object: one call, or 2-3 calls with every order of the flag
     ncalls = rng.choice([1, 1, 2, 2, 3])
     calls = [rng.random() < (0.3 if ncalls == 1 else 0.5) for _ in range(ncalls)]
-    return dict(sg=sg, latt=latt, symm=symm, cell=cell, sfac=SFAC, atoms=atoms, qpeaks=qpeaks,
+    case = dict(sg=sg, latt=latt, symm=symm, cell=cell, sfac=SFAC, atoms=atoms, qpeaks=qpeaks,
                 with_q=calls[0], calls=calls, profile=profile)
+    if rng.random() < 0.4 and profile != 'many':
+        # history with edits through the API between the calls: grow, 1-2 edits, grow (, edit, grow)
+        steps = [dict(grow=rng.random() < 0.4)]
+        state = initial_state(case)
+        for _ in range(rng.choice([1, 1, 2])):
+            for _ in range(rng.choice([1, 1, 2])):
+                e = rand_edit(rng, state, used)
+                state = edit_sim(state, e)
+                steps.append(e)
+            steps.append(dict(grow=rng.random() < 0.4))
+        case['steps'] = steps
+        case['with_q'] = steps[0]['grow']
+        case['calls'] = [st['grow'] for st in steps if 'grow' in st]
+    return case
 
 
 def good_case(rng, profile=None):
@@ -512,7 +613,22 @@ def good_case(rng, profile=None):
         if any(abs(v) > 3.5 for a in case['atoms'] for v in a['xyz']):
             continue
         an = analyse(case)
-        if not an['borderline']:
+        if an['borderline']:
+            continue
+        # every state of an edit history in which grow() is called must be clear of the thresholds too
+        ok = True
+        state = initial_state(case)
+        edited = False
+        for st in steps_of(case):
+            if 'edit' in st:
+                state = edit_sim(state, st)
+                edited = True
+            elif edited:
+                if any(abs(v) > 3.5 for a in state['asu'] for v in a['xyz']) or analyse(state)['borderline']:
+                    ok = False
+                    break
+                edited = False
+        if ok:
             return case, an
     return None, None
 
@@ -539,34 +655,67 @@ def observe_impl(case):
     def obs(a):
         return dict(name=a.name, sfac=a.sfac_num, xyz=[float(a.x), float(a.y), float(a.z)], part=a.part.n, sof=float(a.sof),
                     u=[float(v) for v in a.uvals], symmgen=bool(a.symmgen), q=bool(a.qpeak))
-    # the history: every call on the SAME object; after each call the model's own atom list must be what was read
-    before = [obs(a) for a in shx.atoms.all_atoms]
-    ident = [id(a) for a in shx.atoms.all_atoms]
+    # the history: every step on the SAME object.  Before each grow() the current structure is read off the object (that is what
+    # the oracle is asked about); after each grow() the model's own atom list must be what it was before the call.
+    def snapshot():
+        asu = []
+        for a in shx.atoms.all_atoms:
+            o = obs(a)
+            asu.append(dict(name=o['name'], sfac=o['sfac'], xyz=o['xyz'], part=o['part'], sof=o['sof'], u=(o['u'] + [0.0] * 6)[:6], q=o['q'],
+                            symmgen=o['symmgen'], height=float(a.peak_height) if o['q'] else None))
+        c = shx.cell
+        return dict(case, asu=asu, cell=[float(c.a), float(c.b), float(c.c), float(c.alpha), float(c.beta), float(c.gamma)])
+
     res = dict(results=[], asu_changed=None)
-    for k, flag in enumerate(calls_of(case)):
+    prev = None          # atoms of the previous grow() if nothing was edited since
+    k = -1
+    for st in steps_of(case):
+        if 'edit' in st:
+            try:
+                with contextlib.redirect_stdout(sink):
+                    edit_impl(shx, st)
+            except Exception as e:
+                res['edit_error'] = f'{st["edit"]}: {type(e).__name__}: {e}'
+                break
+            prev = None
+            continue
+        k += 1
+        flag = st['grow']
+        state = snapshot()
+        before = [obs(a) for a in shx.atoms.all_atoms]
+        ident = [id(a) for a in shx.atoms.all_atoms]
+        entry = dict(flag=flag, state=state)
         try:
             with contextlib.redirect_stdout(sink):
                 grown = shx.grow(with_qpeaks=True) if flag else shx.grow()
-            res['results'].append([obs(a) for a in grown])
+            entry['grown'] = [obs(a) for a in grown]
             if len(grown):
                 grown.pop()          # the returned list belongs to the caller: changing it must not reach the model
         except Exception as e:
             if k == 0:
                 return dict(raised=type(e).__name__)
-            res['results'].append(dict(raised=type(e).__name__))
+            entry['raised'] = type(e).__name__
+        if 'grown' in entry:
+            atoms_only = [(tuple(round(v, 9) for v in a['xyz']), a['sfac'], a['part'], round(a['sof'], 9), tuple(round(v, 9) for v in a['u']),
+                           a['symmgen']) for a in entry['grown'] if not a['q']]
+            if prev is not None and atoms_only != prev:
+                entry['differs_from_previous'] = (len(prev), len(atoms_only))
+            prev = atoms_only
+        res['results'].append(entry)
         now = shx.atoms.all_atoms
-        if res['asu_changed'] is None and ([id(a) for a in now] != ident or [obs(a) for a in now] != before):
+        if [id(a) for a in now] != ident or [obs(a) for a in now] != before:
             res['asu_changed'] = dict(call=k, before=[a['name'] for a in before], after=[a.name for a in now])
-            break       # the object is no longer the structure that was read: later calls (and their cost) mean nothing
-    res['grown'] = res['results'][0]
-    if res['asu_changed']:
+            break       # the object is no longer the structure it was: later calls (and their cost) mean nothing
+    res['grown'] = res['results'][0].get('grown')
+    res['final'] = snapshot()
+    if res['asu_changed'] or 'edit_error' in res:
         return res
     # inputs of the model: the implementation's own operator list, SDM items and list of needed operations
     try:
         with contextlib.redirect_stdout(sink):
             sdm = SDM(shx)
             need = sdm.calc_sdm()
-            packed = sdm.packer(sdm, need, with_qpeaks=calls_of(case)[-1])
+            packed = sdm.packer(sdm, need, with_qpeaks=res['results'][-1]['flag'])
         res['need'] = [[int(v) for v in bs] for bs in need]
         res['packed'] = [obs(a) for a in packed]
         from shelxfile.misc.dsrmath import Array
@@ -624,7 +773,7 @@ def check_property(ctx, case, an, obs):
     ok = len(grown) >= len(shown)
     if ok:
         for g, o in zip(grown, shown):
-            if not (g['name'] == o['name'] and g['q'] == o['q'] and not g['symmgen'] and all(core.close(g['xyz'][c], float(o['pos'][c]), 1e-9) for c in range(3))
+            if not (g['name'] == o['name'] and g['q'] == o['q'] and g['symmgen'] == o.get('symmgen', False) and all(core.close(g['xyz'][c], float(o['pos'][c]), 1e-9) for c in range(3))
                     and (o['q'] or same_attrs(g, o))):
                 ok = False
     if not ok:
@@ -651,7 +800,7 @@ def check_property(ctx, case, an, obs):
             def inwindow(a, b, c):
                 # a contact of this image that is no bond but lies inside the code's window d_min + 0.2 of a bonded pair
                 return any(gg == a and TT == b and rt(ii) == rt(c) and not asu[j]['q'] and compatible(asu[ii], asu[j]) and
-                           an['dmin'][(ii, j)] < limit(asu[ii], asu[j]) <= d <= an['dmin'][(ii, j)] + 0.2 + 1e-3
+                           an['dmin'].get((ii, j), 1e9) < limit(asu[ii], asu[j]) <= d <= an['dmin'].get((ii, j), 1e9) + 0.2 + 1e-3
                            for (gg, TT, ii, j, d) in an['con'] if not asu[ii]['q'])
             cls = '|merged-fragments' if any((a, b, rt(c)) in img for (a, b, c) in m) else \
                 '|window-wider-than-bond' if any(inwindow(a, b, c) for (a, b, c) in m) else \
@@ -693,7 +842,7 @@ def check_property(ctx, case, an, obs):
             # which narrowing of the code explains it (classification of the finding only)
             order = sorted(an['frags'], key=lambda fr: min((i for i in fr if asu[i]['el'] != 'H'), default=10 ** 6))
             molno = order.index(an['frags'][f]) + 1
-            inwin = any(d <= an['dmin'][(i, j)] + 0.2 for (i, j, d) in how)
+            inwin = any(d <= an['dmin'].get((i, j), 1e9) + 0.2 for (i, j, d) in how)
             honly = all(asu[i]['el'] == 'H' for i in an['frags'][f])
             wrapped = any(all(T[c] == -math.floor(apply(an['ops'][n], asu[i]['pos'])[c] - asu[j]['pos'][c] + Fr(1, 2)) for c in range(3))
                           for (i, j, d) in how)
@@ -715,9 +864,9 @@ def model_request(case, obs):
                 cal=b * c * math.cos(math.radians(al)))
     from shelxfile.misc.elements import get_atomic_number
     atoms = [dict(src=i, pos=[float(v) for v in o['pos']], sfac=o['sfac'], part=o['part'], sof=o['sof'] if not o['q'] else 11.0,
-                  u=(list(o['u']) + [0.0] * 6)[:6] if not o['q'] else [0.05, o['height'], 0.0, 0.0, 0.0, 0.0], q=o['q'], mol=obs['mol'][i], an=get_atomic_number(o['el']), h=o['el'] == 'H')
+                  u=(list(o['u']) + [0.0] * 6)[:6] if not o['q'] else [0.05, o['height'], 0.0, 0.0, 0.0, 0.0], q=o['q'], mol=obs['mol'][i], an=get_atomic_number(o['el']), h=o['el'] == 'H', symmgen=bool(o.get('symmgen', False)))
              for i, o in enumerate(asu)]
-    return dict(p='C14', op='grow', kern=kern, ops=obs['ops'], atoms=atoms, need=obs['need'], sdm=obs['sdm'], with_q=calls_of(case)[-1])
+    return dict(p='C14', op='grow', kern=kern, ops=obs['ops'], atoms=atoms, need=obs['need'], sdm=obs['sdm'], with_q=obs['results'][-1]['flag'])
 
 
 def canon(atoms):
@@ -733,13 +882,15 @@ def evaluate(ctx, cases, stream=None):
         an = analyse(case)
         obs = observe_impl(case)
         work.append((case, an, obs))
-    reqs = [model_request(c, o) for (c, a, o) in work if 'need' in o]
+    reqs = [model_request(o['final'], o) for (c, a, o) in work if 'need' in o]
     ans = iter(ctx.driver.batch(reqs)) if reqs else iter([])
     for case, an, obs in work:
         asu = an['asu']
         nimg = len(an['images'])
         tags = [f'sg={case["sg"]}', f'profile={case.get("profile")}', f'images={min(nimg, 4)}', f'frags={min(len(an["frags"]), 7)}',
-                'qpeaks' if case['qpeaks'] else 'no-qpeaks', 'history=' + ''.join('Q' if f else 'g' for f in calls_of(case))]
+                'qpeaks' if case['qpeaks'] else 'no-qpeaks',
+                'history=' + ''.join(('Q' if st['grow'] else 'g') if 'grow' in st else 'e' for st in steps_of(case))]
+        tags += sorted({'edit=' + st['edit'] for st in steps_of(case) if 'edit' in st})
         if any(a['part'] < 0 for a in case['atoms']):
             tags.append('part<0')
         if any(a['part'] > 0 for a in case['atoms']):
@@ -747,7 +898,7 @@ def evaluate(ctx, cases, stream=None):
         onsite = any(d < 1e-4 for (g, T, i, j, d) in an['con'] if i == j)
         if onsite:
             tags.append('atom-on-special-position')
-        key = [case['sg'], case['cell'], [(a['sfac'], a['xyz'], a['part']) for a in case['atoms']], case['qpeaks'], calls_of(case)]
+        key = [case['sg'], case['cell'], [(a['sfac'], a['xyz'], a['part']) for a in case['atoms']], case['qpeaks'], steps_of(case)]
         ctx.count(key, nontrivial=nimg > 0 or onsite, tags=tags,
                   sample=dict(sg=case['sg'], atoms=len(case['atoms']), qpeaks=len(case['qpeaks']), bonded_images=nimg,
                               grown=len(obs.get('grown', []))) if nimg else None)
@@ -759,33 +910,37 @@ def evaluate(ctx, cases, stream=None):
             ctx.fail(f'C14|raise|{obs["raised"]}|{cls}', f'grow() raised {obs["raised"]} on a valid structure in {case["sg"]}',
                      dict(case=case, stream='grow-vs-spec', expected='a list of atoms', actual=obs['raised']))
             continue
-        calls = calls_of(case)
-        # every call of the history is held against the oracle for the ORIGINAL asymmetric unit
-        for k, flag in enumerate(calls[:len(obs['results'])]):
-            resk = obs['results'][k]
-            hist = f' [call {k + 1} of {["grow(with_qpeaks=True)" if f else "grow()" for f in calls]} on one object]' if len(calls) > 1 else ''
-            if isinstance(resk, dict):
+        calls = [r['flag'] for r in obs['results']]
+        steps = steps_of(case)
+        shist = [('grow(with_qpeaks=True)' if st['grow'] else 'grow()') if 'grow' in st else
+                 st['edit'] + ' ' + str(st.get('name', '')) for st in steps]
+        # every call of the history is held against the oracle for the structure as it stands at that call
+        for k, resk in enumerate(obs['results']):
+            hist = f' [call {k + 1} of the history {shist} on one object]' if len(steps) > 1 else ''
+            if 'raised' in resk:
                 ctx.fail(f'C14|history|raise|{resk["raised"]}', f'{case["sg"]}: grow() raised {resk["raised"]}{hist}',
                          dict(case=case, stream='grow-vs-spec', expected='a list of atoms', actual=resk['raised']))
                 continue
-            for sig, what, exp, act in check_property(ctx, dict(case, with_q=flag), an, dict(grown=resk)):
+            state = dict(resk['state'], with_q=resk['flag'])
+            ank = an if k == 0 else analyse(state)
+            for sig, what, exp, act in check_property(ctx, state, ank, dict(grown=resk['grown'])):
                 ctx.fail(sig, f'{case["sg"]}: {what}{hist}', dict(case=case, stream='grow-vs-spec', expected=exp, actual=act,
                                                                  model=obs.get('need')))
-            if k > 0 and not isinstance(obs['results'][0], dict):
-                def atoms_only(lst):
-                    return [(tuple(round(v, 9) for v in a['xyz']), a['sfac'], a['part'], round(a['sof'], 9), tuple(round(v, 9) for v in a['u']),
-                             a['symmgen']) for a in lst if not a['q']]
-                if atoms_only(resk) != atoms_only(obs['results'][0]):
-                    ctx.fail('C14|history|result-depends-on-earlier-calls',
-                             f'{case["sg"]}: the atoms returned differ from those of the first call ({len(atoms_only(resk))} vs '
-                             f'{len(atoms_only(obs["results"][0]))}){hist}',
-                             dict(case=case, stream='grow-vs-spec', expected=len(atoms_only(obs['results'][0])), actual=len(atoms_only(resk))))
+            if 'differs_from_previous' in resk:
+                a0, a1 = resk['differs_from_previous']
+                ctx.fail('C14|history|result-depends-on-earlier-calls',
+                         f'{case["sg"]}: the atoms returned differ from those of the previous call although nothing was edited ({a1} vs {a0}){hist}',
+                         dict(case=case, stream='grow-vs-spec', expected=a0, actual=a1))
         if obs.get('asu_changed'):
             ch = obs['asu_changed']
             ctx.fail('C14|history|asymmetric-unit-changed',
-                     f'{case["sg"]}: after call {ch["call"] + 1} of {calls} (and after the caller shortened the returned list) shx.atoms is no longer '
-                     f'the asymmetric unit that was read: {len(ch["before"])} -> {len(ch["after"])} atoms',
+                     f'{case["sg"]}: after call {ch["call"] + 1} of {shist} (and after the caller shortened the returned list) shx.atoms is no longer '
+                     f'what it was before the call: {len(ch["before"])} -> {len(ch["after"])} atoms',
                      dict(case=case, stream='grow-vs-spec', expected=ch['before'], actual=ch['after']))
+        if 'edit_error' in obs:
+            ctx.fail('C14|harness|edit-raised|' + obs['edit_error'].split(':')[0], f'{case["sg"]}: the edit of the history raised: {obs["edit_error"]}',
+                     dict(case=case, stream='grow-vs-spec', actual=obs['edit_error']), kind='correspondence')
+            continue
         if obs.get('asu_changed'):
             continue
         if 'need' not in obs:
@@ -794,14 +949,14 @@ def evaluate(ctx, cases, stream=None):
             continue
         r = next(ans)
         # entry point = calc_sdm + packer
-        last = obs['results'][-1]
-        if isinstance(last, dict) or canon(obs['packed']) != canon(last) or len(obs['packed']) != len(last):
+        last = obs['results'][-1].get('grown')
+        if last is None or canon(obs['packed']) != canon(last) or len(obs['packed']) != len(last):
             ctx.fail('C14|grow-is-not-calc_sdm+packer', 'Shelxfile.grow() differs from SDM.calc_sdm() + SDM.packer()',
-                     dict(case=case, stream='packer-model', expected=len(obs['packed']), actual=None if isinstance(last, dict) else len(last)),
+                     dict(case=case, stream='packer-model', expected=len(obs['packed']), actual=None if last is None else len(last)),
                      kind='correspondence')
         model = [dict(xyz=m['pos'], sfac=m['sfac'], part=m['part'], sof=m['sof'], u=m['u'], symmgen=m['symmgen'], src=m['src']) for m in r['packer']] \
             if r['packer'] is not None else None
-        nshown = len([a for a in asu if calls[-1] or not a['q']])
+        nshown = len([a for a in atoms_of(obs['final']) if calls[-1] or not a['q']])
         if model is None or len(model) != len(obs['packed']) or canon(model[:nshown]) != canon(obs['packed'][:nshown]) \
                 or canon(model) != canon(obs['packed']) or \
                 sorted((m['sfac'], m['part'], round(m['sof'], 6), tuple(round(v, 6) for v in m['u']), m['symmgen']) for m in model) != \
@@ -867,7 +1022,8 @@ def run(ctx):
     ctx.rule = ('generated structures: 1-3 (or 7-9) fragments of 1-4 non-H atoms (+H), placed on / half a bond from / near / far from a special '
                 'position (inversion centre, 2-, 3-, 4-, 6-fold axis, mirror) of one of the tabulated settings with |LATT| in '
                 f'{list(LATTICE_TYPES)}, PART 0, 1/2 disorder, PART -1, optional Q-peaks; histories of 1-3 calls grow() / grow(with_qpeaks=True) in every order on '
-                'ONE object, every result held against the oracle for the original asymmetric unit, shx.atoms compared before/after, the returned '
+                'ONE object, in 40 % of the cases with API edits in between (element, PART, cell, move, delete, add_atom), every result held '
+                'against the oracle for the structure the object holds at that call, shx.atoms compared before/after, the returned '
                 'list shortened by the caller between calls; distinct by (setting, cell, atoms, Q-peaks, history); non-trivial = at least one fragment image is bonded to the asymmetric unit '
                 '(something has to be grown) or an atom sits on a special position')
     ctx.assumptions = ['distances are taken with a float metric tensor; generated cases keep every decisive distance 0.002 A away from '
